@@ -246,6 +246,24 @@ func c16Worker(c *vlib.Ctx, w, n int) {
 				kind = "silently different result"
 			}
 			sig := c16Classify(e, mq, mo) + ": " + kind
+			if strings.HasPrefix(sig, "stored-measurement reference left unrewritten") && mq.Style.Comments != 0 {
+				// a FROM-carrying builtin plus comments: when the same query without its
+				// comments is answered correctly, the comment inside the function body is what
+				// derails the function-body scan (e.g. a parenthesis inside the comment)
+				hasFn := false
+				for _, f := range mq.features() {
+					if strings.HasPrefix(f, "fn:") {
+						hasFn = true
+					}
+				}
+				if hasFn {
+					nc := mq
+					nc.Style.Comments = 0
+					if co := e.run(nc.render(), nc.Hdr, nc.Ordered, nc.Sel.Star); co.Kind != "mismatch" {
+						sig = "comment inside an EXTRACT/SUBSTRING/TRIM body: the function-body scan does not end at the function's closing parenthesis and later measurement references are left unrewritten: " + kind
+					}
+				}
+			}
 			c.Violation(sig, map[string]any{"worker": w, "original_sql": text, "original_hdr": hdr, "original_outcome": o, "hdr_sequence_position": pi,
 				"minimal_sql": mq.render(), "minimal_hdr": mhdr, "minimal_spec": mq, "minimal_features": mq.features(), "minimal_outcome": mo})
 		}
@@ -476,7 +494,7 @@ func c16Classify(e *env, q qspec, o outcome) string {
 func c16Shrink(c *vlib.Ctx, e *env, q qspec, hdr string, o outcome) (qspec, string, outcome) {
 	cur, curO := q, o
 	cur.Hdr = hdr
-	budget := 28
+	budget := 60
 	for improved := true; improved && budget > 0; {
 		improved = false
 		for _, cand := range cur.candidates() {
